@@ -289,7 +289,7 @@ class Gen:
 
     def g_nested(self, depth):
         return {'op': 'nested', 'd': self.rng.choice([0.5, 1, 3]),
-                'start': self.rng.choice([0, 100, -7])}
+                'start': self.rng.choice([0, 100, -7]), 'levels': self.rng.choice([1, 1, 2, 3])}
 
     def g_cancel(self, depth):
         rng = self.rng
